@@ -39,7 +39,12 @@ impl<'buf, IO: Io> Connection<'_, 'buf, IO> {
         let packet = MqttSerializer::encode(&mut buffer, &disconnect)?;
         self.session.runtime.require_packet_size(packet.len())?;
         let result = match write_all(&mut self.io, packet).await {
-            Ok(()) => self.io.flush().await.map_err(Error::Transport),
+            Ok(()) => {
+                // The DISCONNECT is on the transport: nothing may follow it, also if the caller
+                // drops this future while the flush is pending.
+                self.handle_disconnect();
+                self.io.flush().await.map_err(Error::Transport)
+            }
             Err(err) => Err(err),
         };
         // The transport is finished after a DISCONNECT regardless of the write outcome.
